@@ -2,6 +2,9 @@
    entries only, no double counting *)
 From PV Require Import C09.Spec C09.TextLemmas C09.Lib.
 
+(* rewrite [mapM py_int_str l] whatever the (convertible) type annotations on l are *)
+Ltac rw_ints H := match goal with |- context [mapM py_int_str ?l] => rewrite (mapM_py_int_str_dec l H) end.
+
 Definition tup_disk (s : diskstat) : list Z :=
   [read_count s; write_count s; read_bytes s; write_bytes s; read_time s; write_time s;
    read_merged_count s; write_merged_count s; busy_time s].
@@ -58,7 +61,8 @@ Qed.
 Lemma toks_ok d : wf_disk d = true -> forallb utok_ok (toks d) = true.
 Proof.
   intros H. destruct (wf_disk_inv d H) as (_ & _ & Hn & _). destruct (pre_post_dec d H) as [H1 H2].
-  unfold toks. rewrite forallb_app. cbn [forallb]. now rewrite (decs_utok _ H1), Hn, (decs_utok _ H2).
+  unfold toks. rewrite forallb_app. apply andb_true_iff. split; [exact (decs_utok _ H1)|].
+  cbn [forallb]. apply andb_true_iff. split; [exact Hn|exact (decs_utok _ H2)].
 Qed.
 
 Lemma toks_items d nm :
@@ -100,7 +104,8 @@ Proof.
   assert (S1 : ustarts (sp_items items ++ [10]) = true) by (now apply ustarts_sp_items).
   destruct (lead_ws d _ S1) as [S2 E2].
   rewrite usplit_tok_app; [|now apply is_dec_utok|exact S2].
-  rewrite E2. unfold items. rewrite usplit_sp_items; [|rewrite toks_items; exact Ht|reflexivity].
+  f_equal. etransitivity; [exact E2|].
+  unfold items. etransitivity; [apply usplit_sp_items; [rewrite toks_items; exact Ht|reflexivity]|].
   rewrite toks_items. change (usplit [10]) with (@nil text). now rewrite app_nil_r.
 Qed.
 
@@ -167,17 +172,17 @@ Proof.
     destruct extra as [|e1 [|e2 [|e3 [|e4 er]]]]; try discriminate Hlay;
       unfold iostat_list;
       cbn [app length Nat.eqb Nat.leb orb idx nth_error of_option obind slice Nat.sub skipn firstn];
-      rewrite (mapM_py_int_str_dec _ Hs); reflexivity.
+      rw_ints Hs; reflexivity.
   - (* 15 fields: Linux 2.4 *)
     cbn [forallb] in Hf. apply andb_true_iff in Hf as [Hb Hs].
     pose proof (forallb_firstn _ 10 _ Hs) as H10. unfold iostat_list in H10. cbn [firstn] in H10.
     unfold iostat_list.
     cbn [app length Nat.eqb Nat.leb orb idx nth_error of_option obind slice Nat.sub skipn firstn].
     rewrite (py_int_str_dec _ Hb). cbn [obind].
-    rewrite (mapM_py_int_str_dec _ H10). reflexivity.
+    rw_ints H10. reflexivity.
   - (* 7 fields: 2.6 partition *)
     cbn [app length Nat.eqb Nat.leb orb idx nth_error of_option obind slice Nat.sub skipn firstn].
-    rewrite (mapM_py_int_str_dec _ Hf). reflexivity.
+    rw_ints Hf. reflexivity.
 Qed.
 
 Lemma mapM_disk_lines l :
